@@ -4,6 +4,7 @@ locator the service sends is logarithmic in the chain length (never more than 45
 Added in the continuation session; uses only `locHeights` of Proofs/QueryLocator and `C13_locator`.
 -/
 import BHS.Props.C13
+import BHS.Props.C19
 
 namespace BHS.Props.C13
 open BHS BHS.Chain
@@ -84,5 +85,88 @@ theorem C13_locator_size {H : Type} [DecidableEq H] (cfg : Cfg H) (s : Store H) 
 -- the bound is met with little slack: 16 entries for height 30 (k = 7 gives 17)
 example : (locHeights 31 30 1 0).length = 16 ∧ 4 * (30 + 1) < 2 ^ 7 := by decide
 example : Inv exCfg exStore ∧ getTip exStore = some exTip ∧ (locator exStore).length = 5 := by decide
+
+/-! ### The capacity hint of `LatestHeaderLocator` (`12 + FastLog2Floor(height - 10)`) is never exceeded -/
+
+/-- sharp form of the doubling bound for a positive height: `step · 2^length ≤ 4·(h + step - 1)`. -/
+theorem locHeights_doubling_sharp : ∀ (fuel h step n : Nat), 1 ≤ step → 10 ≤ n → 1 ≤ h →
+    step * 2 ^ (locHeights fuel h step n).length ≤ 4 * (h + step - 1)
+  | 0, h, step, n, _, _, _ => by simp [locHeights]; omega
+  | fuel + 1, h, step, n, hs, hn, hh => by
+    have h0 : h ≠ 0 := by omega
+    have hstep : (if n + 1 > 10 then step * 2 else step) = step * 2 := by rw [if_pos (by omega)]
+    simp only [locHeights, if_neg h0, hstep, List.length_cons]
+    by_cases hlt : h ≤ step
+    · have hz : h - step = 0 := by omega
+      rw [hz]
+      cases fuel with
+      | zero => simp [locHeights]; omega
+      | succ f => simp [locHeights]; omega
+    · have ih := locHeights_doubling_sharp fuel (h - step) (step * 2) (n + 1) (by omega) (by omega) (by omega)
+      rw [Nat.pow_succ]
+      have e : step * (2 ^ (locHeights fuel (h - step) (step * 2) (n + 1)).length * 2)
+          = step * 2 * 2 ^ (locHeights fuel (h - step) (step * 2) (n + 1)).length := by
+        rw [Nat.mul_assoc, Nat.mul_comm 2]
+      rw [e]
+      omega
+
+/-- linear phase with the exact landing point: after `10 - n` unit steps the walk is at `h - (10 - n)`. -/
+theorem locHeights_linear_exact : ∀ (fuel h n : Nat), n ≤ 10 →
+    (locHeights fuel h 1 n).length ≤ (10 - n) + (locHeights (fuel - (10 - n)) (h - (10 - n)) 1 10).length
+  | 0, h, n, _ => by simp [locHeights]
+  | fuel + 1, h, n, hn => by
+    by_cases h10 : n = 10
+    · subst h10; simp
+    · by_cases h0 : h = 0
+      · subst h0; simp [locHeights]; omega
+      · have hstep : (if n + 1 > 10 then 1 * 2 else 1) = 1 := by rw [if_neg (by omega)]
+        have ih := locHeights_linear_exact fuel (h - 1) (n + 1) (by omega)
+        have e1 : fuel + 1 - (10 - n) = fuel - (10 - (n + 1)) := by omega
+        have e2 : h - (10 - n) = h - 1 - (10 - (n + 1)) := by omega
+        simp only [locHeights, if_neg h0, hstep, List.length_cons]
+        rw [e1, e2]
+        omega
+
+/-- for a tip above height 10 the step rule visits at most `12 + floor(log2 (h - 10))` heights. -/
+theorem C13_locator_heights_le_hint (h : Nat) (hh : 11 ≤ h) :
+    (locHeights (h + 1) h 1 0).length ≤ 12 + Nat.log2 (h - 10) := by
+  have hl := locHeights_linear_exact (h + 1) h 0 (by omega)
+  have hd := locHeights_doubling_sharp (h + 1 - (10 - 0)) (h - (10 - 0)) 1 10 (Nat.le_refl _) (Nat.le_refl _) (by omega)
+  rw [Nat.one_mul] at hd
+  generalize (locHeights (h + 1 - (10 - 0)) (h - (10 - 0)) 1 10).length = m at hl hd
+  have hm : m - 2 ≤ Nat.log2 (h - 10) := by
+    rw [Nat.le_log2 (by omega)]
+    rcases Nat.lt_or_ge m 2 with h2 | h2
+    · have : m - 2 = 0 := by omega
+      rw [this]; omega
+    · have e : m = (m - 2) + 2 := by omega
+      rw [e, Nat.pow_add] at hd
+      omega
+  omega
+
+/-- the hint as the CODE computes it (`12 + FastLog2Floor(uint32(height) - 10)`, regenerated `Gen.fastLog2Floor`)
+    is an upper bound of the locator's length for every 32-bit tip height above 12 … -/
+theorem C13_locator_capacity_hint_generated (h : Nat) (h12 : 12 < h) (h32 : h < 2 ^ 32) :
+    (locHeights (h + 1) h 1 0).length ≤ 12 + Gen.fastLog2Floor (h - 10) := by
+  rw [BHS.Props.C19.C19_log2 (h - 10) (by omega) (by omega)]
+  exact C13_locator_heights_le_hint h (by omega)
+
+/-- … and `height + 1` is one for the heights up to 12 (the other branch of the hint). -/
+theorem C13_locator_capacity_hint_low (h : Nat) : (locHeights (h + 1) h 1 0).length ≤ h + 1 := by
+  have : ∀ (fuel h step n : Nat), (locHeights fuel h step n).length ≤ fuel := by
+    intro fuel
+    induction fuel with
+    | zero => intro h step n; simp [locHeights]
+    | succ f ih =>
+      intro h step n
+      simp only [locHeights, List.length_cons]
+      split
+      · simp
+      · have := ih (h - step) (if n + 1 > 10 then step * 2 else step) (n + 1); omega
+  exact this _ _ _ _
+
+-- the hint is met exactly at height 30 (16 = 12 + floor(log2 20)) and at 13 (13 = 12 + floor(log2 3))
+example : (locHeights 31 30 1 0).length = 12 + Gen.fastLog2Floor 20 := by decide
+example : (locHeights 14 13 1 0).length = 12 + Gen.fastLog2Floor 3 := by decide
 
 end BHS.Props.C13
